@@ -8,6 +8,7 @@ mod wasm_driver;
 mod x01;
 mod x02;
 mod x03;
+mod x04;
 
 mod c01;
 mod c02;
@@ -117,6 +118,7 @@ fn main() {
                     "c14" => c14::replay(c),
                     "x01" => x01::replay(c),
                     "x03" => x03::replay(c),
+                    "x04" => x04::replay(c),
                     "c16" => c16::replay(c),
                     "c17" => c17::replay(c),
                     "c20" => c20::replay(c),
